@@ -197,7 +197,128 @@ theorem lookup_join_stays_inside (m : Module) (k : FileKind) (l : FileLookup)
   let j := join_stays_inside f root l.cache_rel (rel_is_rooted m k l h).1
   ⟨j.2.1, j.2.2.1⟩
 
-/-! ## 3. the hypothesis of the repair is needed: the pre-fix code (`leafname` only) violates the
+/-! ## 3. "Joining them to … a server URL therefore never leaves that root" —
+      `join_lookup_path` (http.rs), the only way a lookup path reaches a URL -/
+
+theorem urlSegChars_plain : ∀ c ∈ urlSegChars,
+    c ≠ '/' ∧ c ≠ '\\' ∧ c ≠ '?' ∧ c ≠ '#' ∧ 32 < c.toNat ∧ c.toNat < 127 := by decide
+
+theorem splitOnP_joinWith {p : Char → Bool} {sep : Char} (hs : p sep = true) :
+    ∀ segs : List Str, segs ≠ [] → (∀ s ∈ segs, ∀ c ∈ s, p c = false) →
+      splitOnP p (joinWith [sep] segs) = segs
+  | [], h, _ => absurd rfl h
+  | [x], _, hx => by simpa [joinWith] using splitOnP_nosep (hx x (by simp))
+  | x :: y :: rest, _, hx => by
+    have ih := splitOnP_joinWith hs (y :: rest) (by simp) (fun s hm => hx s (by simp [hm]))
+    have : joinWith [sep] (x :: y :: rest) = x ++ sep :: joinWith [sep] (y :: rest) := by
+      simp [joinWith]
+    rw [this, splitOnP_append_sep (hx x (by simp)) hs, ih]
+
+/-- **C17.6 `join_lookup_path_inside`** — for EVERY relative string (not only lookup results) and
+    every base path: if a URL is produced at all, its path is the base directory followed by the
+    percent-encoded components of `rel`, where
+    * no component of `rel` is `.` or `..` (such a `rel` is refused);
+    * every character of an encoded segment is an ASCII letter, digit, one of
+      `- . _ ~ ! $ & ' ( ) * + , ; = : @` or `%` — in particular no `/`, `\`, `?`, `#`, no
+      space, control or non-ASCII character (`urlSegChars_plain`): nothing a URL parser trims,
+      deletes or treats as a delimiter, so the path's segments below the base directory are
+      exactly these segments;
+    * percent-decoding a segment gives back the UTF-8 bytes of the component, so no segment is
+      an encoded `.`/`..` either.
+    Scheme, host and port are not touched by the function (only `set_path`). -/
+theorem join_lookup_path_inside (bp rel p : Str) (h : joinLookupPath bp rel = some p) :
+    ∃ dir, baseDir bp = some dir ∧
+      p = dir ++ joinWith ['/'] ((splitOnP (· == '/') rel).map pctEncode) ∧
+      splitOnP (· == '/') (joinWith ['/'] ((splitOnP (· == '/') rel).map pctEncode))
+        = (splitOnP (· == '/') rel).map pctEncode ∧
+      (∀ c ∈ splitOnP (· == '/') rel, c ≠ ['.'] ∧ c ≠ dotdot) ∧
+      (∀ s ∈ (splitOnP (· == '/') rel).map pctEncode, ∀ ch ∈ s, ch ∈ urlSegChars) ∧
+      ((splitOnP (· == '/') rel).map pctEncode).map pctDecode = (splitOnP (· == '/') rel).map utf8 := by
+  unfold joinLookupPath at h
+  split at h
+  · cases h
+  · rename_i dir hdir
+    simp only at h
+    split at h
+    · cases h
+    · rename_i hany
+      cases h
+      have hchars : ∀ s ∈ (splitOnP (· == '/') rel).map pctEncode, ∀ ch ∈ s, ch ∈ urlSegChars := by
+        intro s hs ch hch
+        obtain ⟨w, _, rfl⟩ := List.mem_map.mp hs
+        exact pctEncode_chars w ch hch
+      refine ⟨dir, hdir, rfl, ?_, ?_, hchars, ?_⟩
+      · apply splitOnP_joinWith (by decide)
+        · simpa using splitOnP_ne_nil _ rel
+        · intro s hs c hc
+          have := (urlSegChars_plain c (hchars s hs c hc)).1
+          simpa using this
+      · intro c hc
+        simp only [List.any_eq_true, Bool.or_eq_true, beq_iff_eq, not_exists, not_and, not_or] at hany
+        exact hany c hc
+      · simp [List.map_map, Function.comp_def, pctDecode_pctEncode]
+
+theorem Three.split_slash {p : Str} (h : Three p) :
+    ∃ leaf id file, splitOnP (· == '/') p = [leaf, id, file] ∧
+      leaf ≠ ['.'] ∧ leaf ≠ dotdot ∧ id ≠ ['.'] ∧ id ≠ dotdot ∧ file ≠ ['.'] ∧ file ≠ dotdot := by
+  obtain ⟨leaf, id, file, rfl, hl, hi, hi2, hi3, hf, _, hf2, hf3⟩ := h
+  have ns : ∀ {w : Str}, (∀ c ∈ w, isSep c = false) → ∀ c ∈ w, (c == '/') = false := by
+    intro w hw c hc
+    have := hw c hc
+    cases hcc : (c == '/') with
+    | false => rfl
+    | true => simp [isSep, hcc] at this
+  refine ⟨leaf, id, file, ?_, hl.not_dot, hl.not_dotdot, hi3, hi2, hf3, hf2⟩
+  rw [joinWith3]
+  have e1 : leaf ++ slash ++ (id ++ slash ++ file) = leaf ++ '/' :: (id ++ '/' :: file) := by
+    simp [slash, List.append_assoc]
+  rw [e1, splitOnP_append_sep (ns hl.nosep) (by decide), splitOnP_append_sep (ns hi) (by decide),
+    splitOnP_nosep (ns hf)]
+
+theorem Three.join_some {p : Str} (h : Three p) {bp dir : Str} (hb : baseDir bp = some dir) :
+    ∃ u, joinLookupPath bp p = some u := by
+  obtain ⟨leaf, id, file, hs, h1, h2, h3, h4, h5, h6⟩ := h.split_slash
+  unfold joinLookupPath
+  rw [hb, hs]
+  simp [h1, h2, h3, h4, h5, h6]
+
+/-- **C17.7** — every lookup path (all three kinds, the CAB variant and the code-info variant) is
+    accepted by `join_lookup_path` (the download is attempted), and by C17.6 the URL stays below
+    the base directory. -/
+theorem lookup_url_stays_inside (m : Module) (k : FileKind) (l : FileLookup) (h : lookup m k = some l)
+    (bp dir : Str) (hb : baseDir bp = some dir) :
+    (∃ u, joinLookupPath bp l.server_rel = some u) ∧
+    (∀ l', mozLookup l = .ok l' → ∃ u, joinLookupPath bp l'.server_rel = some u) := by
+  have h3 := (lookup_three h).2
+  refine ⟨h3.join_some hb, ?_⟩
+  intro l' hl'
+  unfold mozLookup at hl'
+  rw [if_neg h3.ne_nil] at hl'
+  cases hl'
+  exact h3.moz.join_some hb
+
+theorem code_info_url_stays_inside (m : Module) (r : Str) (h : codeInfoBreakpadSymLookup m = some r)
+    (bp dir : Str) (hb : baseDir bp = some dir) : ∃ u, joinLookupPath bp r = some u :=
+  (code_info_three h).join_some hb
+
+def witnessModuleC (code_file : String) : Module :=
+  { code_file := code_file.toList, code_id := some [], debug_file := some ['d'],
+    debug_id := some ⟨true, [1, 2, 3, 4], 1⟩ }
+
+/-- what the pre-fix consumer (`Url::join(server_rel)`, WHATWG reference parsing — not modelled)
+    was exposed to: lookup results that are `Rooted` and yet begin with a URL scheme. The engine
+    replays these against `url::Url::join` (`urlref` cases: other origin / outside the base path). -/
+theorem old_url_join_hazard :
+    ∃ l, lookup (witnessModuleC "http:evil.com") .Binary = some l ∧ Rooted l.server_rel ∧
+      hasSchemePrefix l.server_rel = true :=
+  ⟨_, rfl, (rootedb_iff _).mp (by decide), by decide⟩
+
+example : (joinLookupPath "/base/dir/".toList "http:evil.com/AB/a b%2e.sym".toList).map String.ofList
+    = some "/base/dir/http:evil.com/AB/a%20b%252e.sym" := by decide
+example : joinLookupPath "/base/dir/".toList "a/../b".toList = none := by decide
+example : baseDir "/base/file".toList = some "/base/".toList := by decide
+
+/-! ## 4. the hypothesis of the repair is needed: the pre-fix code (`leafname` only) violates the
       property — the four witnesses of finding F17 -/
 
 def witnessModule (debug_file : String) : Module :=
